@@ -9,4 +9,4 @@ json.dump(t, open(os.path.join(os.path.dirname(os.path.dirname(os.path.abspath(_
 print(sum(len(m) for m in t.values()), "functions with locals,", sum(len(s) for m in t.values() for s in m.values()), "binding sites")
 sh = shape_table(sys.argv[1] if len(sys.argv) > 1 else "/repo")
 json.dump(sh, open(os.path.join(os.path.dirname(os.path.dirname(os.path.abspath(__file__))), "sa", "ref_shapes.json"), "w"), indent=0, sort_keys=True)
-print(sum(len(m["functions"]) for m in sh.values()), "function shapes,", sum(len(f) for m in sh.values() for f in m["functions"].values()), "statement fingerprints")
+print(sum(len(m["functions"]) for k, m in sh.items() if k != "<global>"), "function shapes,", sum(len(f) for k, m in sh.items() if k != "<global>" for f in m["functions"].values()), "statement fingerprints;", len(sh["<global>"]["pure_ctors"]), "pure constructors")
